@@ -231,11 +231,12 @@ def register(S):
         return ctx.ret(ctx.top_ret())
 
     # ------------------------------------------------------------------ tracing (no-ops)
-    @S.pat(r"^tracing(_core)?::")
+    @S.pat(r"tracing(_core)?::")
     def tracing_any(ctx):
         rty = ctx.ret_ty()
         if rty and rty.get("k") == "bool":
-            # enabled? both outcomes explored cheaply by returning unknown
+            if ctx.ip.opts.get("explore_logs"):
+                return ctx.ret(IntVal.top(BOOL))
             return ctx.ret(IntVal.const(BOOL, 0))
         return ctx.ret(ctx.top_ret())
 
